@@ -540,7 +540,7 @@ func (r *yieldRewriter) rewriteForStmt(
 
 	if trivalPost {
 		callFor := r.CallFor(
-			r.ForCondFun(stmt.Cond),
+			r.ForCondFun(r.boolCond(stmt.Cond)),
 			r.ForPostFun(stmt.Post),
 			r.CallDelay(body.block),
 		)
@@ -580,13 +580,25 @@ func (r *yieldRewriter) rewriteForStmt(
 	}
 
 	callFor := r.CallFor(
-		r.ForCondFun(stmt.Cond),
+		r.ForCondFun(r.boolCond(stmt.Cond)),
 		nil,
 		r.CallDelay(body.block),
 	)
 	children = r.combineIfNecessary(children)
 	children.pushReturn(callFor, kindFor)
 	return children
+}
+
+// the cond func of For / While returns bool,
+// a cond of a named boolean type (type flag bool) has to be converted
+func (r *yieldRewriter) boolCond(cond ast.Expr) ast.Expr {
+	if isNil(cond) {
+		return cond
+	}
+	if _, named := r.pkg.TypeOf(cond).(*types.Named); named {
+		return X.Call(X.Ident("bool"), cond)
+	}
+	return cond
 }
 
 func (r *yieldRewriter) combineIfNecessary(children *block) *block {
